@@ -572,7 +572,7 @@ def run_case(case, acc):
 
 
 def plan(tier, seed):
-    n = 20000 if tier == "quick" else 960_000
+    n = 20000 if tier == "quick" else 640_000
     shards = []
     for s, c in harness.split_range(n, 16 if tier == "quick" else 48):
         shards.append(dict(kind="gen", seed=seed, start=s, count=c))
